@@ -169,6 +169,12 @@ class Closure:
     def __init__(s, params, body, env, tys=None):
         s.params, s.body, s.env, s.tys = params, body, env, tys
 
+    def __deepcopy__(s, memo):
+        import copy
+        c = Closure(s.params, s.body, copy.deepcopy(s.env, memo), list(s.tys) if s.tys is not None else None)
+        memo[id(s)] = c
+        return c
+
 
 class Unit:
     def __repr__(s):
